@@ -19,40 +19,7 @@ def family():
         return _fam
     build.install()
 
-    class C17_A0(object):
-        pass
-
-    class C17_A1(C17_A0):
-        pass
-
-    class C17_A2(C17_A1):
-        pass
-
-    class C17_A3(C17_A2):
-        pass
-
-    class C17_A4(C17_A3):
-        pass
-
-    class C17_B0(object):
-        pass
-
-    class C17_B1(C17_B0):
-        pass
-
-    class C17_D(C17_A1, C17_B0):
-        pass
-
-    class C17_V(object):
-        pass
-
-    class C17_W(object):
-        pass
-
-    class C17_I(abc.ABC):
-        pass
-    C17_I.register(C17_V)
-    C17_I.register(C17_A3)
+    from .c17fam import (C17_A0, C17_A1, C17_A2, C17_A3, C17_A4, C17_B0, C17_B1, C17_D, C17_V, C17_W, C17_I)
     _fam.update(A0=C17_A0, A1=C17_A1, A2=C17_A2, A3=C17_A3, A4=C17_A4, B0=C17_B0, B1=C17_B1, D=C17_D, V=C17_V, I=C17_I, W0=C17_W, W1=C17_W)
     _fam["_late_registered"] = False
     return _fam
@@ -118,7 +85,11 @@ def trait_holder(kind, tgt):
     return _H[key]
 
 
-def execute(offers, src, tgt, via, order=None):
+_NAME = {"A0": "C17_A0", "A1": "C17_A1", "A2": "C17_A2", "A3": "C17_A3", "A4": "C17_A4", "B0": "C17_B0", "B1": "C17_B1",
+         "D": "C17_D", "V": "C17_V", "I": "C17_I", "W0": "C17_W", "W1": "C17_W"}
+
+
+def execute(offers, src, tgt, via, order=None, lazy=-1):
     """offers: list of dict(from,to,ok). order: registration order (list of indices)"""
     build.install()
     from traits.adaptation.adaptation_manager import AdaptationManager, set_global_adaptation_manager
@@ -139,6 +110,13 @@ def execute(offers, src, tgt, via, order=None):
 
     def reg(k):
         o = offers[k]
+        if lazy >= 0:
+            # the protocols are NAMED ("module.Class"), through a facade module that re-exports the classes and that
+            # nobody has imported yet: the offer resolves them when it is first looked at
+            mod = "harness.drivers.c17facade%d." % lazy
+            mgr.register_offer(AdaptationOffer(factory=make_factory(k + 1, o["to"], o["ok"]),
+                                               from_protocol=mod + _NAME[o["from"]], to_protocol=mod + _NAME[o["to"]]))
+            return
         mgr.register_offer(AdaptationOffer(factory=make_factory(k + 1, o["to"], o["ok"]),
                                            from_protocol=fam[o["from"]], to_protocol=fam[o["to"]]))
     for k in idx:
@@ -190,7 +168,7 @@ def execute(offers, src, tgt, via, order=None):
             isinst = 1 if isinstance(r, target) else 0
     except (AdaptationError, TraitError):
         result = "none"
-    return {"offers": offers, "src": src, "tgt": tgt, "via": via, "result": result, "chain": chain, "isinst": isinst}
+    return {"offers": offers, "src": src, "tgt": tgt, "via": via, "result": result, "chain": chain, "isinst": isinst, "lazy": lazy}
 
 
 VIAS = ["adapt", "adapt_default", "supports_protocol", "supports", "adaptsto", "supports2", "adaptsto2", "either"]
@@ -209,7 +187,7 @@ def case_fn(st, rep):
         if via == "adapt":
             return None
         via = "adapt"
-    r = execute(offers, str(st["src"]), str(st["tgt"]), via, order)
+    r = execute(offers, str(st["src"]), str(st["tgt"]), via, order, lazy=(h >> 5) % 8 if (h >> 4) & 1 and via in ("adapt", "adapt_default") else -1)
     return {"fail": None, "line": r, "sample": r}
 
 
@@ -243,7 +221,8 @@ def random_lines(seed, n, phase):
         tgt = rnd.choice(types) if rnd.random() < 0.5 else walk[-1]
         order = list(range(len(offers)))
         rnd.shuffle(order)
-        out.append(execute(offers, src, tgt, rnd.choice(VIAS), order))
+        via = rnd.choice(VIAS)
+        out.append(execute(offers, src, tgt, via, order, lazy=rnd.randint(0, 7) if via in ("adapt", "adapt_default") and rnd.random() < 0.3 else -1))
     return out
 
 
@@ -296,4 +275,4 @@ def replay(rep, path):
     obj = json.load(open(path))
     rec = (obj.get("case") or {}).get("record")
     print("recorded:", rec)
-    print("now     :", execute(rec["offers"], rec["src"], rec["tgt"], rec["via"]))
+    print("now     :", execute(rec["offers"], rec["src"], rec["tgt"], rec["via"], lazy=rec.get("lazy", -1)))
